@@ -1,13 +1,8 @@
 import PartituraModel.Wire
 import PartituraModel.Model.NoteArray
+import PartituraModel.Model.NoteArrayMaps
 
 open Wire NoteArray
-
-/-- look-up tables of the part's own maps at the times the table needs -/
-def lookupD {β : Type} (d : β) (l : List (Int × β)) (t : Int) : β :=
-  match l.find? (fun e => e.1 = t) with
-  | some e => e.2
-  | none => d
 
 def parseKind : P Kind := do
   let t ← tok
@@ -33,25 +28,33 @@ def parseNote : P Note := do
   let tp ← opt nat
   pure { id, kind, onset, dur, step, alter, octave, voice, staff, graceType := gt, tieNext := tn, tiePrev := tp }
 
-def parsePart : P Part := do
-  let qd ← list int
+def parseMode : P Model.Mode := do
+  let t ← str
+  match Model.modeOfString t with
+  | some m => pure m
+  | none => P.fail
+
+/-- `<npoints> <first> <last>  n (t q)*  n (t beats beat_type musical_beats)*  m1: -|(s e)  musical
+     n (t fifths mode)*  n (s e)*` -/
+def parseDesc : P Desc := do
+  let n ← nat
+  let first ← int
+  let last ← int
+  let qd ← list (do let t ← int; let q ← nat; pure (t, q))
+  let ts ← list (do let t ← int; let b ← nat; let bt ← nat; let mb ← nat
+                    pure ({ t := t, beats := b, beatType := bt, mb := mb } : Model.TimeMap.TSig))
+  let m1 ← opt (do let s ← int; let e ← int; pure (s, e))
+  let musical ← bool
+  let kss ← list (do let t ← int; let f ← int; let m ← parseMode; pure (t, f, m))
+  let ms ← list (do let s ← int; let e ← int; pure (s, e))
+  pure { tm := { npoints := n, first := first, last := last, qd := qd, ts := ts, m1 := m1, musical := musical },
+         kss := kss, ms := ms }
+
+/-- a part: its notes and its description -/
+def parsePart : P (Desc × List Note) := do
   let notes ← list parseNote
-  let tt ← list (do let t ← int; let b ← rat; let q ← rat; let k ← rat; pure (t, (b, q, k)))
-  let st ← list (do
-    let t ← int
-    let kf ← int; let km ← int
-    let tb ← int; let tbt ← int; let tmb ← int
-    let rel ← int; let tot ← int
-    pure (t, ((kf, km), (tb, tbt, tmb), (rel, tot))))
-  let sent : Rat := -999983
-  let maps : Maps :=
-    { beat := fun t => (lookupD (sent, sent, sent) tt t).1
-      quarter := fun t => (lookupD (sent, sent, sent) tt t).2.1
-      okey := fun t => (lookupD (sent, sent, sent) tt t).2.2
-      ks := fun t => (lookupD ((-999983, -999983), (-999983, -999983, -999983), (-999983, -999983)) st t).1
-      ts := fun t => (lookupD ((-999983, -999983), (-999983, -999983, -999983), (-999983, -999983)) st t).2.1
-      metr := fun t => (lookupD ((-999983, -999983), (-999983, -999983, -999983), (-999983, -999983)) st t).2.2 }
-  pure { notes, qdurs := qd, maps }
+  let d ← parseDesc
+  pure (d, notes)
 
 def parseOpts : P Opts := do
   let spelling ← bool; let ks ← bool; let ts ← bool; let metr ← bool
@@ -83,18 +86,44 @@ def canon (o : Opts) (wd : Bool) (rows : List Row) : List Row :=
 def fmtTable (o : Opts) (wd : Bool) (rows : List Row) : String :=
   "[h:" ++ "/".intercalate (header o wd) ++ "," ++ ",".intercalate ((canon o wd rows).map (fmtRow o wd)) ++ "]"
 
-/-- nested part lists: `P part` or `G n tree*`; evaluates to the table of the subtree -/
-partial def parseTree (unique : Bool) (o : Opts) : P (Option (List Row)) := do
+/-- nested part lists: `P part` or `G n tree*` -/
+partial def parseTree : P Tree := do
   let t ← tok
   match t with
   | "P" =>
     let p ← parsePart
-    pure (rows p { o with divs := true })
+    pure (.part p.1 p.2)
   | "G" =>
     let n ← nat
-    let ts ← rep (parseTree unique o) n
-    pure ((mapM' id ts).bind (mergeTables unique))
+    let ts ← rep parseTree n
+    pure (.group ts)
   | _ => P.fail
+
+def fmtRes (o : Opts) : Res → String
+  | .table wd t => fmtTable o wd t
+  | .same _ => "same"
+  | .refused => "refused"
+  | .raised => "err"
+
+/-- the entry points that yield a note array -/
+def noteEntry (entry : String) (u : Bool) (o : Opts) (items : List Tree) : Option Res :=
+  match entry with
+  | "score" => some (scoreNoteArray u o items)
+  | "ensure_score" => some (ensureNoteArray u o (.score items))
+  | "list" => some (.ofOption true (partListRows u o items))
+  | "ensure_list" => some (ensureNoteArray u o (.list items))
+  | "group" => some (groupNoteArray u o items)
+  | "ensure_group" => some (ensureNoteArray u o (.group items))
+  | _ => none
+
+def restEntry (entry : String) (u : Bool) (o : Opts) (c : Bool) (items : List Tree) : Option Res :=
+  match entry with
+  | "func" => some (.ofOption false (restListRows u o c items))
+  | "ensure_list" => some (ensureRestArray u o c (.list items))
+  | "group" => some (groupRestArray u o c items)
+  | "ensure_group" => some (ensureRestArray u o c (.group items))
+  | "ensure_score" => some (ensureRestArray u o c (.score items))
+  | _ => none
 
 def fmtTriple (x : Int × Int × Int) : String := fmtTuple [fmtInt x.1, fmtInt x.2.1, fmtInt x.2.2]
 
@@ -108,35 +137,60 @@ def parseARow : P ARow := do
 
 def handle (ts : List String) : String :=
   match ts with
-  | "part" :: rest =>
+  | "part" :: entry :: rest =>
     match run (do let o ← parseOpts; let p ← parsePart; pure (o, p)) rest with
     | none => "bad-request"
     | some (o, p) =>
-      match rows p o with
-      | none => "err"
-      | some t => fmtTable o o.divs t
-  | "score" :: rest =>
-    match run (do let u ← bool; let o ← parseOpts; let t ← parseTree u o; pure (o, t)) rest with
+      match entry with
+      | "method" => fmtRes o (partNoteArray o p.1 p.2)
+      | "func" => fmtRes o (.ofOption o.divs (rowsC p.1 p.2 o))
+      | "ensure" => fmtRes o (ensureNoteArray false o (.part p.1 p.2))
+      | _ => "bad-request"
+  | "score" :: entry :: rest =>
+    match run (do
+        let u ← bool; let o ← parseOpts
+        let n ← nat; let items ← rep parseTree n
+        pure (u, o, items)) rest with
     | none => "bad-request"
-    | some (_, none) => "err"
-    | some (o, some t) => fmtTable o true t
-  | "rests" :: rest =>
+    | some (u, o, items) =>
+      match noteEntry entry u o items with
+      | none => "bad-request"
+      | some r => fmtRes o r
+  | "rests" :: entry :: rest =>
     match run (do let c ← bool; let o ← parseOpts; let p ← parsePart; pure (c, o, p)) rest with
     | none => "bad-request"
     | some (c, o, p) =>
-      match restRows p c with
-      | none => "err"
-      | some t => fmtTable o false t
-  | "restlist" :: rest =>
+      match entry with
+      | "method" => fmtRes o (partRestArray o c p.1 p.2)
+      | "func" => fmtRes o (.ofOption false (restRowsC p.1 p.2 { o with divs := false } c))
+      | "ensure" => fmtRes o (ensureRestArray false o c (.part p.1 p.2))
+      | _ => "bad-request"
+  | "restlist" :: entry :: rest =>
     match run (do
         let u ← bool; let c ← bool; let o ← parseOpts
-        let ps ← list parsePart
-        pure (u, c, o, ps)) rest with
+        let n ← nat; let items ← rep parseTree n
+        pure (u, c, o, items)) rest with
     | none => "bad-request"
-    | some (u, c, o, ps) =>
-      match mapM' (fun p => restRows p c) ps with
-      | none => "err"
-      | some tsx => fmtTable o false (mergeRestTables u tsx)
+    | some (u, c, o, items) =>
+      match restEntry entry u o c items with
+      | none => "bad-request"
+      | some r => fmtRes o r
+  | "kind" :: which :: what :: [] =>
+    -- arguments that are not scores: a structured array, an array without fields, anything else
+    let x : Option Input := match what with
+      | "structured" => some (.structured [])
+      | "plain" => some .plainArray
+      | "other" => some .other
+      | _ => none
+    let o : Opts := { spelling := false, ks := false, ts := false, metr := false, grace := false, staff := false, divs := false }
+    match x, which with
+    | some x, "note" => fmtRes o (ensureNoteArray true o x)
+    | some x, "rest" => fmtRes o (ensureRestArray true o false x)
+    | _, _ => "bad-request"
+  | "f32" :: rest =>
+    match run rat rest with
+    | none => "bad-request"
+    | some r => fmtRat (f32round r)
   | "inv" :: rest =>
     match run (do
         let hb ← bool; let hd ← bool; let ht ← bool
